@@ -65,7 +65,7 @@ theorem rmDp_spec {dt : Data} {s s' : Store} {dp : Nat} {node : Int}
     · rw [h3]
 
 theorem rmDp_inv {dt : Data} {s s' : Store} {dp : Nat} {node : Int}
-    (h : s.removeDataPointFromNode dt dp node = some s') (hs : Inv s) : Inv s' := by
+    (h : s.removeDataPointFromNode dt dp node = some s') (hs : Inv0 s) : Inv0 s' := by
   obtain ⟨hw, hn, _, hd, _⟩ := rmDp_spec h hs.1
   refine ⟨hw, fun n hn' => ?_⟩
   have : n.name ∈ s.forest.names := hn ▸ mem_names.2 ⟨n, hn', rfl⟩
@@ -109,8 +109,8 @@ theorem rmOut_spec {s s' : Store} {dp : Nat} (h : s.removeDataPointFromOutliers 
     simp only [Option.some.injEq] at h; subst h
     exact ⟨rfl, rfl, rfl, rfl, by simpa using hc⟩
 
-theorem rmOut_inv {s s' : Store} {dp : Nat} (h : s.removeDataPointFromOutliers dp = some s') (hs : Inv s) :
-    Inv s' := by
+theorem rmOut_inv {s s' : Store} {dp : Nat} (h : s.removeDataPointFromOutliers dp = some s') (hs : Inv0 s) :
+    Inv0 s' := by
   obtain ⟨hf, h1, h2, h3, _⟩ := rmOut_spec h
   have hw := hs.1
   have hnd := nodup_erase_dp hw.d.data_keys hw.d.data_nodup dp outKey
